@@ -1796,6 +1796,8 @@ void expression_t::collect_possible_writes(set<symbol_t>& symbols) const
     case FUN_CALL_EXT:
         // Add all symbols which are changed by the function
         symbol = called_function_symbol(get(0));
+        if (symbol == symbol_t())  // the callee is not a name, e.g. `(-f)()`: reported by the type checker
+            break;
         if ((symbol.get_type().is_function() || symbol.get_type().is_function_external()) && symbol.get_data()) {
             fun = (function_t*)symbol.get_data();
 
@@ -1829,6 +1831,8 @@ void expression_t::collect_possible_reads(set<symbol_t>& symbols, bool collectRa
     case FUN_CALL: {
         // Add all symbols which are used by the function
         auto symbol = called_function_symbol(get(0));
+        if (symbol == symbol_t())  // the callee is not a name, e.g. `(-f)()`: reported by the type checker
+            break;
         if (auto type = symbol.get_type(); type.is_function() || type.is_function_external()) {
             if (auto* data = symbol.get_data(); data) {
                 auto fun = static_cast<function_t*>(data);
